@@ -1,0 +1,31 @@
+//go:build verif
+// +build verif
+
+package spg
+
+import (
+	"math/big"
+	"sort"
+)
+
+// This file is only compiled with the build tag "verif". It gives the external
+// verification harness stable entry points to internals; it changes no behaviour
+// of the ordinary build.
+
+// VerifRandomUint32n exposes the bounded draw so that bounds no alphabet or word list
+// reaches can be exercised.
+func VerifRandomUint32n(n uint32) uint32 { return randomUint32n(n) }
+
+// VerifCount returns the exact number of passwords the recipe's Entropy() is the log2 of
+// when the recipe has (effective) requirements.
+func VerifCount(r CharRecipe) *big.Int {
+	r.buildCharacterList()
+	return r.n()
+}
+
+// verifCanonical sorts an alphabet or word list, so that the element drawn for a given
+// index is a function of the recipe and not of Go's map iteration order.
+func verifCanonical(cl []string) []string {
+	sort.Strings(cl)
+	return cl
+}
